@@ -35,9 +35,11 @@ HOSTILE = ['x" * 3 + "', '" + str(1) + "', "\\\\", "'\"'", "__import__('os')", "
 
 
 class G:
-    def __init__(self, draw, loops, lists, hostile=False, empty_string=True, callee_field_write=True, loop_overwrite=True):
+    def __init__(self, draw, loops, lists, hostile=False, empty_string=True, callee_field_write=True, loop_overwrite=True,
+                 callee_revisit=True):
         self.draw = draw
         self.loop_overwrite = loop_overwrite
+        self.callee_revisit = callee_revisit     # generated callees may be called in or after a loop (the call is visited again)
         self.in_loop = 0
         self.frozen = set()
         self.callee_field_write = callee_field_write
@@ -52,6 +54,7 @@ class G:
         self.labels = set()
         self.multi = set()        # variables that may hold more than one value (assigned under a branch, or derived)
         self.written = set()
+        self.helpers = []         # generated callees: (name, returns an object?, body lines); placed after m0
 
     def fresh(self, p):
         self.n += 1
@@ -87,7 +90,7 @@ def gen_stmt(g, env, indent, depth):
     objs0 = [v for v, k in env.items() if k == "obj0"]
     objs1 = [v for v, k in env.items() if k == "obj1"]
     lists = [v for v, k in env.items() if k == "list"]
-    r = g.draw(st.integers(0, 23))
+    r = g.draw(st.integers(0, 27))
     w_ints = [v for v in ints if v not in g.frozen]
     w_strs = [v for v in strs if v not in g.frozen]
     if r <= 2 or not ints:
@@ -240,15 +243,85 @@ def gen_stmt(g, env, indent, depth):
         g.multi |= {v for v in g.written if v in env}
         g.written = outer_written | g.written
         return
+    if r >= 24 and objs0 and g.callee_field_write and (g.callee_revisit or "loop" not in g.labels):
+        # a generated callee: writes the fields of its parameter object, maybe through an alias, maybe on both sides
+        # of an early return guarded by an opaque flag; called from one or several sites
+        if g.helpers and (len(g.helpers) >= 2 or g.coin()):
+            name, ret_obj, _ = g.pick(g.helpers)
+            g.labels.add("generated_callee_reused")
+        else:
+            name, ret_obj, _ = gen_helper(g)
+        g.labels.add("generated_callee")
+        if g.cond < 5 and (g.cond == 0 or g.coin(2, 3)):
+            c = "c%d" % g.cond
+            g.cond += 1
+        else:
+            c = "c%d" % g.draw(st.integers(0, g.cond - 1))
+        o = g.pick(objs0)
+        v = g.fresh("o" if ret_obj else "v")
+        g.emit(indent, "%s = %s(%s, %s, %s)" % (v, name, o, c, g.pick(ints)), v, multi=True)
+        env[v] = "obj0" if ret_obj else "int"
+        w = g.fresh("v")
+        g.emit(indent, "%s = %s.%s" % (w, g.pick([o, o, v] if ret_obj else [o]), g.pick(["f0", "f1"])), w, multi=True)
+        env[w] = "int"
+        return
     v = g.fresh("v")
     env[v] = "int"
     a = g.pick(ints)
     g.emit(indent, "%s = %s" % (v, a), v, multi=a in g.multi)
 
 
+def gen_helper(g):
+    name = "h%d" % len(g.helpers)
+    body = []
+    objs = ["o"]
+    if g.coin():
+        body.append("q = o")
+        objs.append("q")
+    ret_obj = g.coin()
+    have_t = [False]
+    early = [False]
+
+    def value():
+        return g.pick(["v", str(g.draw(st.integers(0, 9)))])
+
+    def ret():
+        if ret_obj:
+            return g.pick(objs)
+        return g.pick(["v", "7"] + (["t"] if have_t[0] else []))
+
+    for _ in range(g.draw(st.integers(1, 5))):
+        k = g.draw(st.integers(0, 7))
+        if k <= 2:
+            body.append("%s.%s = %s" % (g.pick(objs), g.pick(["f0", "f1"]), value()))
+        elif k == 3:
+            body.append("t = %s.%s" % (g.pick(objs), g.pick(["f0", "f1"])))
+            have_t[0] = True
+        elif k == 4 and not early[0]:
+            body.append("if c:")
+            if g.coin():
+                body.append("    %s.%s = %s" % (g.pick(objs), g.pick(["f0", "f1"]), value()))
+            body.append("    return " + ret())
+            early[0] = True
+        elif k == 5 and len(objs) == 1:
+            body.append("q = o")
+            objs.append("q")
+        elif k == 6:
+            body.append("if c:")
+            body.append("    %s.%s = %s" % (g.pick(objs), g.pick(["f0", "f1"]), value()))
+        else:
+            body.append("%s.f1 = %s" % (g.pick(objs), value()))
+    body.append("return " + ret())
+    h = (name, ret_obj, ["def %s(o, c, v):" % name] + ["    " + b for b in body])
+    g.helpers.append(h)
+    return h
+
+
 @st.composite
-def programs(draw, loops=False, lists=False, max_stmts=14, empty_string=True, callee_field_write=True, loop_overwrite=True):
-    g = G(draw, loops, lists, empty_string=empty_string, callee_field_write=callee_field_write, loop_overwrite=loop_overwrite)
+def programs(draw, loops=False, lists=False, max_stmts=14, empty_string=True, callee_field_write=True, loop_overwrite=True,
+             callee_revisit=True):
+    g = G(draw, loops, lists, empty_string=empty_string, callee_field_write=callee_field_write, loop_overwrite=loop_overwrite,
+          callee_revisit=callee_revisit)
     env = {}
     n = draw(st.integers(4, max_stmts))
     for _ in range(n):
@@ -257,6 +330,8 @@ def programs(draw, loops=False, lists=False, max_stmts=14, empty_string=True, ca
     k = max(g.cond, 1)
     head = "def m0(%s):" % ", ".join("c%d" % i for i in range(k))
     lines = HEADER + [head] + g.lines
+    for _, _, hl in g.helpers:
+        lines = lines + hl
     defs = dict(HEADER_DEFS)
     defs.update(g.defs)
     return {"source": "\n".join(lines) + "\n", "params": k, "defs": {int(a): b for a, b in defs.items()}, "labels": sorted(g.labels)}
